@@ -5,6 +5,12 @@ import (
 )
 
 func init() {
+	Props["C05"] = PropDef{
+		Explanation: "T-VARLEN: Len() of VarInt/VarLong equals the LEB128 length of the two's-complement pattern and equals the byte count WriteToBytes returns (decided by evaluating the integer control skeleton at every breakpoint of the code and of the LEB128 length function); WriteTo emits exactly vi[:n]; the decode loops read at most MaxVarIntLen / MaxVarLongLen bytes. Not decided: the emitted bit pattern and the decoded value (shift/mask arithmetic over run-time values).",
+		Run: func(c *Ctx) []core.Ob {
+			return c.VarLen()
+		},
+	}
 	Props["C14"] = PropDef{
 		Explanation: "T-REGIDX: every access of the [32][32] offsets/Timestamps tables is indexed [z][x], the orientation setHead (4*(z*32+x)) and the flat big-endian transfer in Load/CreateWriter use on disk. R-ORDER: the over-limit refusal dominates every state change and file write of WriteSector; every in-memory header update is followed by setHead; Load's occupancy scan visits every entry. R-TLG: the declared chunk length in ReadSector is sign- and range-checked before allocation. Not decided: disjointness of live sector runs over all histories, first-fit search, read-back equality.",
 		Run: func(c *Ctx) []core.Ob {
